@@ -13,8 +13,9 @@ from . import tlc
 from .num import as_map, cq, synth
 from .tlaval import parse_behaviour_file
 
-OWNER = {"derive": "C05", "filter": "C04", "apply": "C03", "rk": "C02", "resample": "C15", "leray": "C10", "addmode": None}
-INVS = ["RealOK", "BandOK", "FilterOK", "ProjectOK", "DeriveOK"]
+OWNER = {"derive": "C05", "filter": "C04", "apply": "C03", "rk": "C02", "resample": "C15", "leray": "C10", "incomp": "C10", "poisson": "C05", "oddball": "C04", "addmode": None}
+INVS = ["RealOK", "BandOK", "FilterOK", "ProjectOK", "DeriveOK", "OddballOK"]
+PROPS = ["PoissonOK"]
 L = 2 * np.pi
 DT = 0.25
 
@@ -26,7 +27,7 @@ def simulate(run, tier, seed, label, num=None):
     quick = tier == "quick"
     consts = {"Kinds": '{"s1", "s2", "v2"}', "Sizes": "{1008, 1009, 2006, 2005}" if quick else "{1008, 1009, 1012, 1015, 2006, 2005, 2008, 2009}",
               "MaxNl": 2, "MaxRK": 2, "Seeds": 6, "MaxLen": 6}
-    tlc.write_cfg(cfg, spec="Spec", constants=consts, invariants=INVS)
+    tlc.write_cfg(cfg, spec="Spec", constants=consts, invariants=INVS, properties=PROPS)
     workers = 16
     per = num or (2 if quick else 60)
     res = tlc.run_tlc("Session", cfg, workers=workers, simulate="file={dir}/tr,num=%d" % per, depth=7, seed=seed + 1, timeout=3000, tag="Session_" + label)
@@ -112,6 +113,12 @@ def apply_action(ex, jnp, D, N, u, last):
         dop = ex.spectral.build_derivative_operator(D, L, N)
         f = ex.nonlin_fun.Leray(D, N, derivative_operator=dop)
         return np.asarray(ex.ifft(f(ex.fft(ju)), num_spatial_dims=D, num_points=N)), N
+    if op == "incomp":
+        return np.asarray(ex.spectral.make_incompressible(ju)), N
+    if op == "poisson":
+        return np.asarray(ex.poisson.Poisson(D, L, N, order=last["o"])(ju)), N
+    if op == "oddball":
+        return np.asarray(ex.ifft(ex.fft(ju) * ex.spectral.oddball_filter_mask(D, N), num_spatial_dims=D, num_points=N)), N
     raise KeyError(op)
 
 
